@@ -55,4 +55,3 @@ pub broadcast group group_f64_axioms {
 }
 } // mod f64ax
 pub use f64ax::*;
-broadcast use f64ax::group_f64_axioms;
